@@ -1318,18 +1318,32 @@ class Evaluator:
         rec.result = r
         return r
     if key in self.opaque or short in self.opaque:
-      r = T('call', T('fn', key), tuple(fullargs), tuple(sorted(kwargs.items())))
+      ca, ck = self._canonical_internal(node, fullargs, kwargs)
+      r = T('call', T('fn', key), tuple(ca), tuple(sorted(ck.items())))
       rec.result = r
       return r
     if bound is None:
       return self.generic_call(clo, fullargs, kwargs, n)
     if len(self._active) >= self.max_depth or self._active.count(key) >= 2:
-      r = T('call', T('fn', key), tuple(fullargs), tuple(sorted(kwargs.items())))
+      ca, ck = self._canonical_internal(node, fullargs, kwargs)
+      r = T('call', T('fn', key), tuple(ca), tuple(sorted(ck.items())))
       rec.result = r
       return r
     r = self.run_function(node, fi, key, defscope, bound)
     rec.result = r
     return r
+
+  def _canonical_internal(self, node, args, kwargs):
+    """Uninterpreted calls of repository functions in one spelling: arguments given by keyword move into their
+    positional slot as long as every earlier parameter is supplied (f(a, y=b) == f(a, b))."""
+    a = node.args
+    if a.vararg or '**' in kwargs or any(x.op == 'starred' for x in args):
+      return list(args), dict(kwargs)
+    params = [x.arg for x in a.posonlyargs + a.args]
+    args, kwargs = list(args), dict(kwargs)
+    while len(args) < len(params) and params[len(args)] in kwargs:
+      args.append(kwargs.pop(params[len(args)]))
+    return args, kwargs
 
   def run_function(self, node, fi, key, defscope, bound):
     kind = 'lambda' if isinstance(node, ast.Lambda) else 'function'
